@@ -38,7 +38,9 @@ class Body:
         if self.kind == "Closure":
             return "closure:" + self.key
         if self.trait:
-            return "<%s as %s<%s>>::%s" % (self.self_ty, self.trait, ",".join(self.trait_args), self.name)
+            if self.trait_args:
+                return "<%s as %s<%s>>::%s" % (self.self_ty, self.trait, ",".join(self.trait_args), self.name)
+            return "<%s as %s>::%s" % (self.self_ty, self.trait, self.name)
         if self.self_ty:
             return "%s::%s" % (self.self_ty, self.name)
         return "fn:" + self.name
